@@ -194,6 +194,16 @@ def keywordToFieldDet (g : Str) : Det → Det := mapDet .one (keywordItem g)
 
 def keywordToField (g : Str) (doc : Doc) : Doc := { doc with dets := mapDets (keywordToFieldDet g) doc.dets }
 
+/-- keywords mapped to several fields: one-to-many is an OR, each alternative a `contains` item -/
+def keywordItems (gs : List Str) (vs : List PV) : Det :=
+  match gs with
+  | [g] => keywordItem g vs
+  | gs => .list (gs.map (fun g => keywordItem g vs))
+
+def keywordToFieldsDet (gs : List Str) : Det → Det := mapDet .one (keywordItems gs)
+
+def keywordToFields (gs : List Str) (doc : Doc) : Doc := { doc with dets := mapDets (keywordToFieldsDet gs) doc.dets }
+
 /-- expressible here: every keyword list consists of strings, there is no keyword item inside a map -/
 def kwExpressible (d : Det) : Bool := (detItems d).all (fun kv => fieldOf kv.1 != none || (kv.1.isEmpty && allStr kv.2))
 
@@ -220,6 +230,7 @@ end
 inductive RwErr
   | emptied (name : Str)             -- a detection lost all its items (its operand vanishes from the condition: C02)
   | notExpressible (what : String)   -- the documented effect is not a source-level rewrite here
+  | noValidHash                      -- `hashes_fields`: an item without an entry of a valid algorithm (documented failure)
 deriving Repr
 
 def dropDets (sc : Scope) : List (Str × Det) → Except RwErr (List (Str × Det))
@@ -367,16 +378,105 @@ def removeFields (fs : List Str) (doc : Doc) : Doc := { doc with fields := fs.fo
 /-- `set_field` -/
 def setFields (fs : List Str) (doc : Doc) : Doc := { doc with fields := fs }
 
+/-! ## hash-field splitting (`hashes_fields`)
+
+"Replaces the generic 'Hashes' field with specific fields for each hash algorithm, optionally prefixing the field names.
+It supports various hash formats and can auto-detect hash types based on their length."  An entry is `ALGO=hash` or
+`ALGO|hash` (wildcards around it are void) or a bare hash whose algorithm is found by its length; `ALGO` names one of the
+configured `valid_hash_algos` **whatever its spelling** (the field is built from the algorithm, not from how the rule
+spells it), so all entries of one algorithm end up in one item `<field_prefix><ALGO>: [hashes]`; the items of the
+algorithms are alternatives (OR), in order of first appearance; entries of no valid algorithm are left out and an item
+without any valid entry is an error ("Raises: if no valid hash algorithms were found"). -/
+
+structure HashCfg where
+  algos : List Str                 -- `valid_hash_algos`
+  pfx : Str := []                  -- `field_prefix`
+  dropAlgo : Bool := false         -- `drop_algo_prefix`
+  fields : List Str := ["Hashes".toList, "Hash".toList]     -- `field_to_parse`
+  byLength : List (Nat × Str) := []                         -- digest length (hex characters) → algorithm
+
+def isStar (c : Char) : Bool := c == '*'
+def isWild (c : Char) : Bool := c == '*' || c == '?'
+def stripL (p : Char → Bool) (s : Str) : Str := s.dropWhile p
+def strip (p : Char → Bool) (s : Str) : Str := ((s.dropWhile p).reverse.dropWhile p).reverse
+
+/-- the algorithm an entry names, in the spelling of the configuration (upper case) -/
+def normAlgo (a : Str) : Str := stripL isStar (a.map Char.toUpper)
+
+/-- algorithm and hash of the parts of an entry -/
+def hashEntryParts (cfg : HashCfg) : List Str → Str × Str
+  | [a, v] => (normAlgo a, strip isWild v)
+  | parts => let v := strip isWild (parts.headD []); ((cfg.byLength.lookup v.length).getD [], v)
+
+def hashParts (s : Str) : List Str := if s.contains '|' then splitOn '|' s else splitOn '=' s
+
+/-- `some (algorithm, hash)` for an entry of a valid algorithm -/
+def hashEntry (cfg : HashCfg) (s : Str) : Option (Str × Str) :=
+  let e := hashEntryParts cfg (hashParts s)
+  if !e.1.isEmpty && cfg.algos.contains e.1 then some e else none
+
+def hashField (cfg : HashCfg) (algo : Str) : Str := cfg.pfx ++ (if cfg.dropAlgo then [] else algo)
+
+/-- append `v` to the group of key `k`; a new key opens a group at the end -/
+def groupInsert (k v : Str) : List (Str × List Str) → List (Str × List Str)
+  | [] => [(k, [v])]
+  | g :: gs => if g.1 = k then (g.1, g.2 ++ [v]) :: gs else g :: groupInsert k v gs
+
+def groupAll : List (Str × Str) → List (Str × List Str) → List (Str × List Str)
+  | [], acc => acc
+  | e :: es, acc => groupAll es (groupInsert e.1 e.2 acc)
+
+def hashEntries (cfg : HashCfg) (vs : List PV) : List (Str × Str) := (strsOf vs).filterMap (hashEntry cfg)
+
+/-- one group per target field, in order of first appearance -/
+def hashGroups (cfg : HashCfg) (es : List (Str × Str)) : List (Str × List Str) :=
+  groupAll (es.map (fun e => (hashField cfg e.1, e.2))) []
+
+/-- the items the transformation looks at: a field of `field_to_parse` with string values only -/
+def hashApplies (cfg : HashCfg) (kv : KV) : Bool :=
+  (match fieldOf kv.1 with | some f => cfg.fields.contains f | none => false) && allStr kv.2
+
+/-- the OR of one item per algorithm -/
+def hashItem (cfg : HashCfg) (kv : KV) : Out :=
+  .sub (.list ((hashGroups cfg (hashEntries cfg kv.2)).map (fun g => .map [(g.1, g.2.map .str)])))
+
+def hashItemGated (cfg : HashCfg) (gate : Scope) (kv : KV) : Out :=
+  if gate kv.1 kv.2 && hashApplies cfg kv then hashItem cfg kv else .one kv
+
+def hashDet (cfg : HashCfg) (gate : Scope) : Det → Det := mapDet (hashItemGated cfg gate) .values
+
+def hashesFields (cfg : HashCfg) (gate : Scope) (doc : Doc) : Doc := { doc with dets := mapDets (hashDet cfg gate) doc.dets }
+
+/-- modifiers that only put wildcards around the entries (which are void) -/
+def hashMods : List Str := ["contains".toList, "startswith".toList, "endswith".toList]
+
+/-- is the documented effect on this item a source-level rewrite?  Only wildcard-adding modifiers, no escapes in the
+entries, and target field names that are field names -/
+def hashItemExpressible (cfg : HashCfg) (gate : Scope) (kv : KV) : Bool :=
+  !(gate kv.1 kv.2 && hashApplies cfg kv) ||
+  ((keyMods kv.1).all hashMods.contains && (strsOf kv.2).all (fun s => !s.contains '\\') &&
+   (hashGroups cfg (hashEntries cfg kv.2)).all (fun g => !g.1.isEmpty && g.1 != "keyword".toList && !g.1.contains '|'))
+
+/-- an item in scope has at least one entry of a valid algorithm -/
+def hashItemValid (cfg : HashCfg) (gate : Scope) (kv : KV) : Bool :=
+  !(gate kv.1 kv.2 && hashApplies cfg kv) || !(hashEntries cfg kv.2).isEmpty
+
+/-- a check on every item (a keyword list has no field: `hashApplies` is false on it) -/
+def hashCheck (cfg : HashCfg) (gate : Scope) (p : HashCfg → Scope → KV → Bool) (d : Det) : Bool :=
+  (detItems d).all (p cfg gate)
+
 /-! ## transformations as data; nesting -/
 
 inductive Tr
   | rename (m : Str → List Str)
   | renameGated (gate : Scope) (m : Str → List Str)
   | kwToField (g : Str)
+  | kwToFields (gs : List Str)
   | drop (sc : Scope)
   | addCond (name : Str) (items : List KV) (negated : Bool)
   | value (vt : VT) (sc : Scope)
   | fieldsList (g : Doc → Doc)       -- `add_field`/`remove_field`/`set_field`: one of the three functions above
+  | hashes (cfg : HashCfg) (gate : Scope)
   | nest (ts : List Tr)
 
 mutual
@@ -387,12 +487,20 @@ def Tr.apply : Tr → Doc → Except RwErr Doc
   | .kwToField g, doc =>
     if doc.dets.all (fun d => kwExpressible d.2) then .ok (keywordToField g doc)
     else .error (.notExpressible "keyword list with non-string values")
+  | .kwToFields gs, doc =>
+    if doc.dets.all (fun d => kwExpressible d.2) then .ok (keywordToFields gs doc)
+    else .error (.notExpressible "keyword list with non-string values")
   | .drop sc, doc => dropItems sc doc
   | .addCond n items neg, doc => .ok (addCondition n items neg doc)
   | .value vt sc, doc =>
     if doc.dets.all (fun d => valueExpressible vt sc d.2) then .ok (valueTransform vt sc doc)
     else .error (.notExpressible "value transformation below a value modifier")
   | .fieldsList g, doc => .ok { doc with fields := (g doc).fields }
+  | .hashes cfg gate, doc =>
+    if !doc.dets.all (fun d => hashCheck cfg gate hashItemExpressible d.2) then
+      .error (.notExpressible "hash entries below a value modifier or with escapes")
+    else if !doc.dets.all (fun d => hashCheck cfg gate hashItemValid d.2) then .error .noValidHash
+    else .ok (hashesFields cfg gate doc)
   | .nest ts, doc => Tr.applyL ts doc
 def Tr.applyL : List Tr → Doc → Except RwErr Doc
   | [], doc => .ok doc
@@ -442,7 +550,7 @@ def renameAtom (r : Str → Str) (a : Atom) : Atom := shiftAtom ((atomField a).m
 def covered : List String :=
   ["field_name_mapping", "field_name_prefix_mapping", "field_name_suffix", "field_name_prefix",
    "drop_detection_item", "add_condition", "replace_string", "map_string", "case", "set_value",
-   "convert_type", "nest", "add_field", "remove_field", "set_field"]
+   "convert_type", "nest", "add_field", "remove_field", "set_field", "hashes_fields"]
 
 /-- placeholder expansion is part of the rule semantics itself (`Ctx.phItems`, `Rule.strBE`): C17 -/
 def coveredBySemantics : List String :=
@@ -451,7 +559,7 @@ def coveredBySemantics : List String :=
 /-- identifiers without a Lean rewrite: not query-relevant (rule metadata, state, failures), needing
 external data, a Python callable, or not specified at source level -/
 def notCovered : List String :=
-  ["field_name_transform", "hashes_fields", "extract_fields", "file_placeholders", "http_placeholders",
+  ["field_name_transform", "extract_fields", "file_placeholders", "http_placeholders",
    "command_placeholders", "change_logsource", "set_state",
    "regex", "rule_failure", "detection_item_failure", "strict_field_mapping_failure",
    "set_custom_attribute"]
@@ -464,6 +572,7 @@ def knownParams : List (String × List String) :=
    ("replace_string", ["regex", "replacement", /- -- -/ "skip_special", "interpret_special"]), ("map_string", ["mapping"]),
    ("case", ["method"]), ("set_value", ["value", /- -- -/ "force_type"]), ("convert_type", ["target_type"]), ("nest", ["items"]),
    ("add_field", ["field"]), ("remove_field", ["field"]), ("set_field", ["fields"]),
+   ("hashes_fields", ["valid_hash_algos", "field_prefix", "drop_algo_prefix", "field_to_parse"]),
    ("wildcard_placeholders", ["include", "exclude"]), ("value_placeholders", ["include", "exclude"]),
    ("query_expression_placeholders", ["include", "exclude", "expression", "mapping"])]
 
